@@ -27,34 +27,19 @@ import (
 func init() { register("C10", checkC10) }
 
 type c10acc struct {
-	fertCases, fertImpl   []string
-	tilCases, tilImpl     []string
-	irrCases, irrImpl     []string
-	runCases, runImpl     []string
-	waterCases, waterImpl []string
-	inputs                map[string]interface{}
+	fertCases, fertImpl     []string
+	tilCases, tilImpl       []string
+	irrCases, irrImpl       []string
+	runCases, runImpl       []string
+	waterCases, waterImpl   []string
+	tillogCases, tillogImpl []string
+	inputs                  map[string]interface{}
 }
 
 func (a *c10acc) add(cases, impl *[]string, key, cs, im string, payload interface{}) {
 	*cases = append(*cases, cs)
 	*impl = append(*impl, im)
 	a.inputs[cs] = payload
-}
-
-// interleave puts lines of other fields between the own lines (own order preserved).
-func interleave(r *vh.Rng, own []schedEv, start, last int, mk func(z int) schedEv) []schedEv {
-	var out []schedEv
-	noise := r.Chance(0.6)
-	for _, e := range own {
-		for noise && r.Chance(0.3) {
-			out = append(out, mk(start-60+r.Intn(last-start+120)))
-		}
-		out = append(out, e)
-	}
-	for noise && r.Chance(0.4) {
-		out = append(out, mk(start-60+r.Intn(last-start+120)))
-	}
-	return out
 }
 
 func firedStr(x []execRec) string {
@@ -77,7 +62,7 @@ func checkC10(c *vh.Ctx) {
 	root := filepath.Join(c.Scratch, "runs")
 	os.MkdirAll(root, 0o755)
 	nRuns := c.N(400, 6000)
-	c.Res.Rule = fmt.Sprintf("%d generated whole simulations (1-2 years, bare soil or rotations, four date formats, schedules with pre-start / post-end events, same-day pairs, consecutive days, lines of other fields, all %d fertilisers of FERTILIZ.TXT, global factor 33-120 %%); evaluations = scheduled events and simulated days judged; non-trivial = distinct (run, action kind) with at least one in-period event", nRuns, len(table))
+	c.Res.Rule = fmt.Sprintf("%d generated whole simulations (1-2 years, bare soil or rotations, four date formats, schedules with pre-start / post-end events, same-day pairs, consecutive days, lines of other fields, all %d fertilisers of FERTILIZ.TXT, global factor 33-120 %%); evaluations = scheduled events and simulated days judged; schedule lines with amount 0 / 0 mm / depth 0, files laid out with random other-field lines, as a chronological merge of several fields or grouped, rendered with blanks / tabs / trailing comment; plus triples of projects in one session (sequential in two orders and overlapping) compared with their solo runs; non-trivial = distinct (run, action kind) with at least one in-period event", nRuns, len(table))
 	acc := &c10acc{inputs: map[string]interface{}{}}
 	for k := 0; k < nRuns; k++ {
 		c10Run(c, c.Rng.Fork(), k, table, root, acc)
@@ -89,12 +74,14 @@ func checkC10(c *vh.Ctx) {
 	c.Correspond("schedule.til", acc.tilCases, acc.tilImpl, 0, 0, desc(acc.tilCases))
 	c.Correspond("schedule.irr", acc.irrCases, acc.irrImpl, 0, 0, desc(acc.irrCases))
 	c.Correspond("schedule.run", acc.runCases, acc.runImpl, 0, 0, desc(acc.runCases))
+	c10SessionStage(c, table)
+	c.Correspond("schedule.tillog", acc.tillogCases, acc.tillogImpl, 0, 0, desc(acc.tillogCases))
 	c.Correspond("schedule.irrigate", acc.waterCases, acc.waterImpl, 1e-9, 1e-12, desc(acc.waterCases))
 }
 
 func c10Run(c *vh.Ctx, r *vh.Rng, k int, table []fertRow, root string, acc *c10acc) {
 	name := fmt.Sprintf("s%d", k)
-	noCrop := r.Chance(0.35) || k < 6
+	noCrop := r.Chance(0.35) || k < 9
 	p := proj.Gen(r, name, proj.Opt{Management: true, Years: r.Range(1, 2), NoCrop: noCrop, MaxLayers: 10})
 	start, end := p.Start(), p.End()
 	annD, annM := r.Range(1, 28), r.Range(1, 12)
@@ -108,98 +95,14 @@ func c10Run(c *vh.Ctx, r *vh.Rng, k int, table []fertRow, root string, acc *c10a
 	p.Cfg["Fertilization"] = strconv.Itoa(pct)
 	factor := float64(pct) / 100
 	p.SetFormat(format, end, annD, annM)
-	iso := func(z int) string { return proj.FromZ(z).String() }
-
-	// the first runs replay the Lean counter-witnesses (C10_…_fails_at) on the implementation
-	forced := map[string][]int{}
-	switch k {
-	case 0:
-		forced["fert"] = []int{s0}
-	case 1:
-		forced["fert"] = []int{s0 + 10, s0 + 10, s0 + 11}
-	case 2:
-		forced["fert"] = []int{s0 + 10, s0 + 10, s0 + 11, s0 + 11, s0 + 20}
-	case 3:
-		forced["irr"] = []int{s0 - 5, s0 + 5}
-	case 4:
-		forced["til"] = []int{s0 - 1}
-	case 5:
-		forced["til"] = []int{s0 + 10, s0 + 10, s0 + 11, s0 + 11, s0 + 20}
-	}
-	pick := func(kind string, gen []int) []int {
-		if f, ok := forced[kind]; ok {
-			return f
-		}
-		return gen
-	}
-	// ---- fertiliser
-	cleanF := r.Chance(0.6)
-	var fertOwn []schedEv
-	for j, z := range pick("fert", walkDates(r, s0, last, 2, cleanF, r.Intn(4)*r.Intn(2), r.Intn(3), r.Range(0, 24), r.Range(2, 40))) {
-		row := table[(k*5+j*3+r.Intn(2))%len(table)]
-		fertOwn = append(fertOwn, schedEv{Z: z, Date: iso(z), Own: true, A: 10 + 4*j + r.Intn(4), Kind: row.Code})
-	}
-	fertAll := interleave(r, fertOwn, s0, last, func(z int) schedEv {
-		return schedEv{Z: z, Date: iso(z), A: r.Range(5, 150), Kind: table[r.Intn(len(table))].Code}
-	})
-	p.Fert = nil
-	for _, e := range fertAll {
-		fe := proj.FertEv{Amount: e.A, Kind: e.Kind, Date: proj.FromZ(e.Z)}
-		if !e.Own {
-			fe.Field = "OTHER1"
-		}
-		p.Fert = append(p.Fert, fe)
-	}
-	// ---- irrigation
-	var irrOwn []schedEv
-	preIrr := 0
-	if r.Chance(0.35) {
-		preIrr = 1 + r.Intn(2)
-	}
-	for j, z := range pick("irr", walkDates(r, s0, last, 1, false, preIrr, r.Intn(3), r.Range(0, 14), r.Range(2, 40))) {
-		irrOwn = append(irrOwn, schedEv{Z: z, Date: iso(z), Own: true, A: 3 + 2*j + r.Intn(2), B: r.Intn(40) * r.Intn(2)})
-	}
-	irrAll := interleave(r, irrOwn, s0, last, func(z int) schedEv { return schedEv{Z: z, Date: iso(z), A: r.Range(5, 60), B: r.Intn(30)} })
-	p.Irr = nil
-	for _, e := range irrAll {
-		ie := proj.IrrEv{MM: e.A, Conc: e.B, Date: proj.FromZ(e.Z)}
-		if !e.Own {
-			ie.Field = p.Field + "x"
-		}
-		p.Irr = append(p.Irr, ie)
-	}
-	p.Irrigated = true
-	// ---- tillage (never between sowing and harvest of a crop: the run would be rejected, nitro.go:240-243)
-	cleanT := r.Chance(0.6)
-	allowed := func(z int) bool {
-		for i := 1; i < len(p.Rot); i++ {
-			if !(z+2 <= p.Rot[i].Sow.Z() || z > p.Rot[i].Harvest.Z()) {
-				return false
-			}
-		}
-		return true
-	}
-	var tilOwn []schedEv
-	for _, z := range pick("til", walkDates(r, s0, last, 2, cleanT, r.Intn(3)*r.Intn(2), r.Intn(3), r.Range(0, 16), r.Range(2, 30))) {
-		if allowed(z) {
-			tilOwn = append(tilOwn, schedEv{Z: z, Date: iso(z), Own: true, A: r.Range(3, 44), B: r.Range(1, 2)})
-		}
-	}
-	tilAll := interleave(r, tilOwn, s0, last, func(z int) schedEv { return schedEv{Z: z, Date: iso(z), A: r.Range(3, 40), B: r.Range(1, 2)} })
-	p.Til = nil
-	for _, e := range tilAll {
-		te := proj.TilEv{Depth: e.A, Kind: e.B, Date: proj.FromZ(e.Z)}
-		if !e.Own {
-			te.Field = "ZZ9"
-		}
-		p.Til = append(p.Til, te)
-	}
+	sch := genC10Schedules(r, p, k, table, s0, last, false)
+	fertAll, irrAll, tilAll, fertOwn, irrOwn, tilOwn := sch.FertAll, sch.IrrAll, sch.TilAll, sch.FertOwn, sch.IrrOwn, sch.TilOwn
 
 	replay := map[string]interface{}{"project": p, "date_format": format, "start_day": s0, "expected_last_day": last,
-		"fertiliser_lines": fertAll, "irrigation_lines": irrAll, "tillage_lines": tilAll, "fertilisation_factor_pct": pct,
+		"fertiliser_lines": fertAll, "irrigation_lines": irrAll, "tillage_lines": tilAll, "fertilisation_factor_pct": pct, "file_layout": sch.Layout, "file_style": sch.Style,
 		"how": "proj.Project JSON: write with Project.Write + WriteManagementConf, run with proj.Run (harness/cmd/check/c10.go c10Run); day numbers are days since 31.12.1900"}
 	slots := len(fertOwn) + len(irrOwn) + len(tilOwn) + len(p.Rot) + 6
-	tr, err := runTraced(c, root, p, slots, nil)
+	tr, err := runTraced(c, root, p, slots, func(root string) error { return p.WriteScheduleStyle(root, sch.Style) })
 	if err != nil {
 		c.Violate("search", "harness:write", err.Error(), replay)
 		return
@@ -497,7 +400,26 @@ func c10Run(c *vh.Ctx, r *vh.Rng, k int, table []fertRow, root string, acc *c10a
 		}
 	}
 	cmp("fertilization", fertEx)
-	cmp("tillage", tilEx)
+	// a tillage of depth 0 moves the cursor but is not an event of the file (nitro.go: `if g.EINT[NTIL] > 0`)
+	var tilLogged []execRec
+	tilDay := map[string]bool{}
+	for _, e := range byKind["tillage"] {
+		tilDay[e.Date] = true
+	}
+	for _, e := range tilEx {
+		if e.Slot < len(snap.EINT) {
+			if snap.EINT[e.Slot] > 0 {
+				tilLogged = append(tilLogged, e)
+			} else {
+				c.Count("tillage:executed:depth-0")
+			}
+			cs := fmt.Sprintf("schedule.tillog %d", int(snap.EINT[e.Slot]))
+			acc.tillogCases = append(acc.tillogCases, cs)
+			acc.tillogImpl = append(acc.tillogImpl, strconv.Itoa(b2iSch(tilDay[dotted(e.Zeit, format)])))
+			acc.inputs[cs] = map[string]interface{}{"run": name, "day": e.Zeit}
+		}
+	}
+	cmp("tillage", tilLogged)
 	cmp("irrigation", irrEx)
 	cmp("harvest", realHar)
 	var sowEx []execRec
